@@ -8,7 +8,32 @@
    says that a map phi sends the objects reachable from the root one-to-one onto objects of the
    result of the same kind and payload whose references are, label by label, the images of the
    original references (so shared and cyclic positions are shared and cyclic in the same places,
-   and nothing else is shared). *)
+   and nothing else is shared).
+
+   WHICH SHAPES THE THEOREMS COVER.  The isomorphism theorem (C20_graph_roundtrip_iso_partial) and the
+   termination theorems are about the Go type N above: pointers to structs, slices of pointers and
+   maps (int keys) of pointers, with any sharing and any cycles among them — slices and maps of any
+   length, references that are unresolved when the builder reads them included — marshaled from a
+   root of type *N, or from a root handed over BY VALUE (a N: the heap then has the copy that the
+   interface holds as its root node, see Model/Graph.v "Root by value"; nothing else changes).
+   They do NOT cover, because the library's iterator and builders for other Go types are not
+   modelled: pointers to scalars and strings (markers on values that are not containers), structs
+   nested by value, arrays, slices and maps whose elements are structs, pointers to slices and maps,
+   roots that are arrays, slices or maps.  For those the section "Extended shapes" of Model/Graph.v
+   gives the heap language [xheap], the isomorphism relation [xiso_both] and the fragment
+   [x_supported]; the harness runs the library on random and directed values of such types and the
+   case checker (shape_case_ok) recomputes every isomorphism verdict and checks that inside the
+   fragment every round trip came back isomorphic.  C20_theorem_shapes_are_supported below says
+   that the theorem's own shapes lie inside that fragment, and on every type-N case the checker
+   confirms that [xiso_both] on the embedded heaps is the relation [giso_check] decides.
+   Outside the fragment are exactly the shapes with one of these (open findings, observed by the
+   harness on the unchanged library; the witnesses are pinned as Examples at the end):
+     - a reference held in a by-value container (struct nested in a struct, array, struct element of
+       a slice, struct value of a map) that can be a back-edge to an object still being built: it
+       comes back nil (keys C20/back-edge-in-by-value-struct, -in-array, -in-slice-of-structs,
+       -in-map-of-structs);
+     - a pointer to a slice or to a map: Unmarshal refuses the document (C20/pointer-to-slice,
+       C20/pointer-to-map). *)
 From CE Require Import Model.Graph Proofs.GraphProofs.
 Open Scope N_scope.
 
@@ -127,3 +152,62 @@ Example C20_nested_marker_pinned :
   | _ => false
   end = true.
 Proof. vm_compute. reflexivity. Qed.
+
+(* The shapes of the theorems above, written in the extended heap language, lie inside the fragment
+   on which the harness asserts an isomorphic round trip for values of any Go type. *)
+Theorem C20_theorem_shapes_are_supported : forall h, x_supported (xembed h) = true.
+Proof. exact xembed_supported. Qed.
+Print Assumptions C20_theorem_shapes_are_supported.
+
+(* ... and on them the two isomorphism checks agree (here: the non-vacuity heap against itself and
+   against the nested-marker heap). *)
+Example C20_embedded_iso_agrees :
+  xiso_both (xembed ex_heap) (XRef 1) (xembed ex_heap) (XRef 1) = giso_check ex_heap (Some 1) ex_heap (Some 1) /\
+  xiso_both (xembed ex_heap) (XRef 1) (xembed w_nested) (XRef 1) = giso_check ex_heap (Some 1) w_nested (Some 1) /\
+  xclosed (xembed ex_heap) (XRef 1) = true.
+Proof. vm_compute. repeat split; reflexivity. Qed.
+
+(* Shapes outside the type N.  Inside the fragment: one pointer to an int and one pointer to a struct
+   shared between a field, a struct nested by value, an array, a slice of structs and a map whose
+   values are pointers to scalars (no reference leads back to its holder). *)
+Definition x_forward : xheap :=
+  [(1, XCObj (XStruct [XInt 1; XRef 2; XRef 3; XStruct [XInt 3; XRef 2; XRef 3]; XArr [XRef 2; XRef 2]; XRef 4; XRef 5; XRef 3]));
+   (2, XCObj (XStruct [XInt 9; XNil; XNil; XStruct [XInt 0; XNil; XNil]; XArr [XNil; XNil]; XNil; XNil; XNil]));
+   (3, XCObj (XInt 7));
+   (4, XCSlice [XStruct [XInt 4; XRef 2; XNil]; XStruct [XInt 5; XNil; XRef 3]]);
+   (5, XCMap [(XStr [108; 111], XRef 3); (XStr [104; 105], XRef 6)]);
+   (6, XCObj (XInt 8))].
+Example C20_forward_sharing_in_fragment :
+  xclosed x_forward (XRef 1) = true /\ x_supported x_forward = true /\
+  xiso_both x_forward (XRef 1) x_forward (XRef 1) = true.
+Proof. vm_compute. repeat split; reflexivity. Qed.
+
+(* Outside the fragment: the witnesses of the open findings (type Outer struct{V int; ...} with the
+   container named).  For the back-edge classes the second heap is what the harness saw come back
+   from the unchanged library (the reference is nil): not isomorphic. *)
+Definition x_back_struct : xheap := [(1, XCObj (XStruct [XInt 1; XStruct [XInt 3; XRef 1]]))].        (* o.In.Q = o *)
+Definition x_back_struct_result : xheap := [(1, XCObj (XStruct [XInt 1; XStruct [XInt 3; XNil]]))].
+Definition x_back_array : xheap :=                                                                     (* o.Ar = [2]*Outer{o, p} *)
+  [(1, XCObj (XStruct [XInt 1; XArr [XRef 1; XRef 2]])); (2, XCObj (XStruct [XInt 4; XArr [XNil; XNil]]))].
+Definition x_back_array_result : xheap :=
+  [(1, XCObj (XStruct [XInt 1; XArr [XNil; XRef 2]])); (2, XCObj (XStruct [XInt 4; XArr [XNil; XNil]]))].
+Definition x_back_slice : xheap :=                                                                     (* o.Sv = []Inner{{5, o}, {6, nil}} *)
+  [(1, XCObj (XStruct [XInt 1; XRef 2])); (2, XCSlice [XStruct [XInt 5; XRef 1]; XStruct [XInt 6; XNil]])].
+Definition x_back_slice_result : xheap :=
+  [(1, XCObj (XStruct [XInt 1; XRef 2])); (2, XCSlice [XStruct [XInt 5; XNil]; XStruct [XInt 6; XNil]])].
+Definition x_back_map : xheap :=                                                                       (* o.Mv = map[string]Inner{"a": {8, o}} *)
+  [(1, XCObj (XStruct [XInt 1; XRef 2])); (2, XCMap [(XStr [97], XStruct [XInt 8; XRef 1])])].
+Definition x_back_map_result : xheap :=
+  [(1, XCObj (XStruct [XInt 1; XRef 2])); (2, XCMap [(XStr [97], XStruct [XInt 8; XNil])])].
+Definition x_ptr_slice : xheap :=                                                                      (* o.Ps = &[]*Outer{p} *)
+  [(1, XCObj (XStruct [XInt 1; XRef 2])); (2, XCObj (XRef 3)); (3, XCSlice [XRef 4]); (4, XCObj (XStruct [XInt 3; XNil]))].
+Definition x_ptr_map : xheap :=                                                                        (* o.Pm = &map[string]*Outer{"a": p} *)
+  [(1, XCObj (XStruct [XInt 1; XRef 2])); (2, XCObj (XRef 3)); (3, XCMap [(XStr [97], XRef 4)]); (4, XCObj (XStruct [XInt 3; XNil]))].
+Example C20_findings_outside_fragment :
+  x_supported x_back_struct = false /\ x_supported x_back_array = false /\ x_supported x_back_slice = false /\
+  x_supported x_back_map = false /\ x_supported x_ptr_slice = false /\ x_supported x_ptr_map = false /\
+  xiso_both x_back_struct (XRef 1) x_back_struct_result (XRef 1) = false /\
+  xiso_both x_back_array (XRef 1) x_back_array_result (XRef 1) = false /\
+  xiso_both x_back_slice (XRef 1) x_back_slice_result (XRef 1) = false /\
+  xiso_both x_back_map (XRef 1) x_back_map_result (XRef 1) = false.
+Proof. vm_compute. repeat split; reflexivity. Qed.
